@@ -10,9 +10,9 @@ from vlib.pyround import to_quantum
 PID = 'C11'
 PROPERTY_FILE = 'Properties/C11.v'
 # generated model parts (translate/) this property's model / proofs really depend on
-GEN_DEPS = []
+GEN_DEPS = ['MoneyConvImpl']
 MODEL_TARGETS = ['Corr/MoneyConvCorr.vo']
-PROOF_TARGETS = ['Proofs/C11Proofs.vo']
+PROOF_TARGETS = ['Proofs/GenMoneyConvEq.vo', 'Proofs/C11Proofs.vo']
 COQ_HEADER = ("From QV Require Import Model.Num Model.Quantity Model.Rates "
               "Model.MoneyConv Corr.Common Corr.Obs Corr.MoneyConvCorr.")
 COQ_CHECK = 'c11_check'
@@ -313,6 +313,29 @@ def gen_script(rng, with_identity=False, tiny=False):
             'probes': probes, 'queries': queries}
 
 
+def gen_script_rejected_first(rng):
+    """histories that BEGIN with an update rejected for a bad entry (valid validity of one
+    kind), followed by valid updates of ANOTHER kind: the rejected update must not have
+    fixed the converter's kind of validity, nor left any entry (seeded C16-d)"""
+    sc = gen_script(rng)
+    kinds = ['none', 'year', 'month', 'day']
+    ka, kb = rng.sample(kinds, 2)
+    pool = [tuple(p) for p in rng.sample(BOUNDARY, 3)]
+    base = sc['base']
+    bad = {'v': _spell(rng, ka, rng.choice(pool)),
+           'es': [_entry(rng, base), _entry(rng, base, good=False)], 'dm': sc['qdm']}
+    rng.shuffle(bad['es'])
+    good = [{'v': _spell(rng, kb, rng.choice(pool)),
+             'es': [_entry(rng, base) for _ in range(rng.choice([1, 2, 3]))], 'dm': sc['qdm']}
+            for _ in range(rng.choice([1, 2, 3]))]
+    sc['steps'] = [bad] + good
+    effs = [list(d) for d in pool] + [None]
+    sc['dflt'] = list(rng.choice(pool))
+    for q in sc['queries'] + sc['probes']:
+        q['eff'] = rng.choice(effs)
+    return sc
+
+
 def gen_cases(rng, tier):
     # the pure-Python decimalfp needs ~15 ms for every non-terminating division,
     # i.e. 30..150 ms per inverse / cross rate: the script count is bounded by that
@@ -320,6 +343,7 @@ def gen_cases(rng, tier):
     ident = _known('C11-identity-raises')
     tiny = _known('C11-derived-rate-unrepresentable')
     cases = [gen_script(rng, with_identity=ident) for _ in range(n)]
+    cases += [gen_script_rejected_first(rng) for _ in range(max(8, n // 10))]
     if tiny:
         cases += [gen_script(rng, with_identity=ident, tiny=True) for _ in range(max(8, n // 20))]
     return cases
